@@ -649,13 +649,20 @@ func (api *pubSubAPI) subscribePendingTransactions(wsConn *wsConn, subID rpc.ID)
 				}
 
 				for _, ethTx := range ethTxs {
+					// the payload of a tx which made it into a block is not necessarily decodable: HashStr() would panic,
+					// in this goroutine nothing recovers and the node would crash
+					decodedEthTx := &ethtypes.Transaction{}
+					if err := decodedEthTx.UnmarshalBinary(ethTx.MarshalledTx); err != nil {
+						continue
+					}
+
 					// write to ws conn
 					res := &SubscriptionNotification{
 						Jsonrpc: "2.0",
 						Method:  "eth_subscription",
 						Params: &SubscriptionResult{
 							Subscription: subID,
-							Result:       ethTx.HashStr(),
+							Result:       decodedEthTx.Hash().Hex(),
 						},
 					}
 
